@@ -96,6 +96,22 @@ def chk_routes(c):
         assert np.array_equal(np.asarray(bspline.active_deriv(K, ui, 1)), np.asarray(bspline.active_deriv(K, u, 1))), 'active_deriv with the python int %d' % ui
         assert bspline.single_ev(K, 0, ui) == bspline.single_ev(K, 0, u), 'single_ev with the python int %d' % ui
         assert K.findspan(ui) == K.findspan(u)
+    # point ARRAYS of other real dtypes on the routes that accept them (single-function route, spline evaluation): same values as for the
+    # float64 copy of the points, in floating point (an integer point array must not make the result an integer array)
+    lo_i, hi_i = int(np.ceil(c['kv'][0])), int(np.floor(c['kv'][-1]))
+    ints = np.array(sorted(set(range(lo_i, min(hi_i, lo_i + 3) + 1)) | set(range(max(lo_i, hi_i - 2), hi_i + 1))), dtype=int) if hi_i >= lo_i else np.array([], dtype=int)
+    variants = [('float32', pts.astype(np.float32))] + ([('integer', ints)] if len(ints) else [])
+    for nm, q in variants:
+        qf = np.asarray(q, dtype=float)
+        for i in range(n):
+            a, b_ = np.asarray(bspline.single_ev(K, i, q)), np.asarray(bspline.single_ev(K, i, qf))
+            assert a.shape == b_.shape and np.max(np.abs(a - b_)) <= 1e-12, 'single_ev of function %d at %s points %r: %r, at the same float64 points: %r' % (
+                i, nm, q.tolist(), a.tolist(), b_.tolist())
+        a, b_ = np.asarray(bspline.ev(K, coeffs, q)), np.asarray(bspline.ev(K, coeffs, qf))
+        assert a.shape == b_.shape and np.max(np.abs(a - b_)) <= 1e-12 * max(1.0, np.max(np.abs(b_))), 'ev at %s points differs from ev at the same float64 points' % nm
+        if p >= 1:
+            a, b_ = np.asarray(bspline.deriv(K, coeffs, 1, q)), np.asarray(bspline.deriv(K, coeffs, 1, qf))
+            assert a.shape == b_.shape and np.max(np.abs(a - b_)) <= 1e-10 * max(1.0, np.max(np.abs(b_))), 'deriv at %s points differs from deriv at the same float64 points' % nm
     # assembler jets
     nj = min(p, 2)
     V = np.asarray(assemble_tools.compute_values_derivs(K, pts, nj))
